@@ -172,6 +172,30 @@ def also_minimal(out, spec, fh, open_fn, model, requests, tag, limit: int = 4 <<
     how = spec.get("via_minimal")
     if not how or out.failures or fh.size > limit:
         return
+    if how == "reopen":
+        # the caller keeps its file object longer than a reader: a first reader is opened, used and dropped, a second one is
+        # opened on the same object
+        import gc
+
+        out.cls("reader-dropped-and-reopened")
+        h = io.BytesIO(fh.materialize(limit))
+        v, err = lib(open_fn, h)
+        if err:
+            out.fail(err.sig(tag + "-reopen-first"), f"open raised {err.describe()}")
+            return
+        check_reads(out, v, model, requests[:1], tag + "-reopen-first")
+        del v
+        gc.collect()
+        if h.closed:
+            out.fail(f"mutated|{tag}-supplied-handle-closed", "the caller's file object was closed when the reader on it was dropped")
+            return
+        h.seek(0)
+        v, err = lib(open_fn, h)
+        if err:
+            out.fail(err.sig(tag + "-reopen"), f"second open on the same file object raised {err.describe()}")
+            return
+        check_reads(out, v, model, requests[:4], tag + "-reopen")
+        return
     out.cls("via-minimal-handle")
     v, err = lib(open_fn, MinimalHandle(fh.materialize(limit), seek_returns_none=how == "seek-none"))
     if err:
@@ -203,6 +227,28 @@ def gzip_handle(fh, limit: int = 4 << 20):
             shutil.rmtree(d, ignore_errors=True)
 
     return h, cleanup
+
+
+def also_gzip(out, spec, fh, open_fn, model, requests, tag, limit: int = 4 << 20):
+    """If the case asks for it (spec["via_gzip"]) and the image is small, open the same bytes once more behind gzip.open() (the
+    way the library's own tests open their samples) and compare a few reads."""
+    if not spec.get("via_gzip") or out.failures:
+        return
+    gz, cleanup = gzip_handle(fh, limit)
+    if gz is None:
+        return
+    try:
+        out.cls("via-gzip-handle")
+        v, err = lib(open_fn, gz)
+        if err:
+            out.fail(err.sig(tag + "-gzip-open"), f"open through a gzip.open() handle raised {err.describe()}")
+            return
+        if hasattr(v, "size") and getattr(model, "size", None) is not None and v.size != model.size:
+            out.fail(f"mismatch|{tag}-gzip-size", f"size {v.size} != {model.size} through a gzip.open() handle")
+            return
+        check_reads(out, v, model, requests[:4], tag + "-gzip")
+    finally:
+        cleanup()
 
 
 def first_diff(a: bytes, b: bytes) -> int:
